@@ -138,10 +138,11 @@ func runCase(c Case, x *h.Ctx) {
 	partsOf := map[string]*types.PartSet{} // block key -> parts
 	led := &ledger{power: map[int]int64{}, votes: map[string]map[int]bool{}}
 	setVals := func(vs *types.ValidatorSet) {
-		led.total = vs.TotalVotingPower()
+		led.total = 0 // summed here: the set's own total is a cache of the code under test
 		led.power = map[int]int64{}
 		for i, v := range vs.Validators {
 			led.power[i] = v.VotingPower
+			led.total += v.VotingPower
 		}
 	}
 	setVals(sub.RS().Validators)
